@@ -276,7 +276,29 @@ func concChild(args []string) int {
 				case x < editShare+readShare && id != "":
 					ev := ConcEvent{W: w, Bug: id.String(), Call: now()}
 					var err error
-					switch rng.Intn(6) {
+					switch rng.Intn(9) {
+					case 6:
+						ev.Op = "resolve-excerpt-prefix"
+						_, err = c.Bugs().ResolveExcerptPrefix(id.String()[:10])
+					case 7:
+						ev.Op = "resolve-comment"
+						// the combined id of the creation comment interleaves the bug id and the comment id
+						var b *cache.BugCache
+						if b, err = c.Bugs().Resolve(id); err == nil {
+							if cs := b.Snapshot().Comments; len(cs) > 0 {
+								_, _, err = c.Bugs().ResolveComment(cs[0].CombinedId().String()[:20])
+							}
+						}
+					case 8:
+						ev.Op = "identity-lookups"
+						for _, iid := range c.Identities().AllIds() {
+							if _, err = c.Identities().ResolveExcerptPrefix(iid.String()[:10]); err != nil {
+								break
+							}
+							if _, err = c.Identities().ResolvePrefix(iid.String()[:10]); err != nil {
+								break
+							}
+						}
 					case 0, 1:
 						ev.Op = "snapshot"
 						var b *cache.BugCache
